@@ -259,6 +259,10 @@ func (e *specEnv) eval(x Expr) Val {
 				return e.st.loadFrom(e.heap, a, u.Elem())
 			}
 		}
+		if base.Sort == "String" {
+			// s[i]: the byte at position i (strings are sequences of bytes)
+			return Val{S: "(str.to_code (str.at " + base.S + " " + idx.S + "))", Sort: "Int"}
+		}
 		e.fail("cannot index %s", exprString(n.X))
 	case EUn:
 		v := e.eval(n.X)
@@ -545,6 +549,14 @@ func (e *specEnv) evalCall(n ECall) Val {
 			e.fail("visited(k): no map with key sort %s is iterated", k.Sort)
 		}
 		return Val{S: "(select (select " + e.heapTerm(cls) + " " + it.S + ") " + k.S + ")", Sort: "Bool"}
+	case "indexof":
+		// indexof(s, sep): position of the first occurrence of sep in s, -1 if there is none
+		a, b := e.eval(n.Args[0]), e.eval(n.Args[1])
+		return Val{S: "(str.indexof " + a.S + " " + b.S + " 0)", Sort: "Int"}
+	case "substr":
+		// substr(s, from, n): n bytes of s starting at from
+		a, b, c := e.eval(n.Args[0]), e.eval(n.Args[1]), e.eval(n.Args[2])
+		return Val{S: "(str.substr " + a.S + " " + b.S + " " + c.S + ")", Sort: "String"}
 	case "spawncount":
 		// spawncount(): the number of `go` statements executed on this path
 		if e.st == nil {
@@ -558,11 +570,14 @@ func (e *specEnv) evalCall(n ECall) Val {
 		return Val{S: itoa(e.st.ncalls[exprString(n.Args[0])]), Sort: "Int"}
 	case "lastresult":
 		// lastresult(f): what the most recent call of f on this path returned (false if f was not called: use with called(f))
-		if e.st == nil || len(n.Args) != 1 {
+		if e.st == nil || len(n.Args) < 1 || len(n.Args) > 2 {
 			e.fail("lastresult(name) needs a path state")
 		}
 		if v, ok := e.st.lastRet[exprString(n.Args[0])]; ok && v.S != "" {
 			return v
+		}
+		if len(n.Args) == 2 {
+			return e.eval(n.Args[1]) // lastresult(f, default): the default when f was not called on this path
 		}
 		return Val{S: "false", Sort: "Bool"}
 	case "contains":
